@@ -3,7 +3,7 @@
    store beyond the capacity the wrapper allocated is a [Fault]); these theorems say no access faults,
    for ARBITRARY inputs (not assumed sorted), any mask, empty arrays, any search target / start. *)
 From Coq Require Import ZArith.
-From SA Require Import Base.Prelude Kernels.Intersect Kernels.Linear Kernels.Intersect_Safe Kernels.Linear_Proofs
+From SA Require Import Base.Prelude Kernels.Intersect Kernels.Linear Kernels.Intersect_Safe Kernels.Linear_Proofs Kernels.Linear2 Kernels.Linear2_Proofs
   Index.Index Index.Index_Spec Score.BM25 Score.BM25_Walk Score.Score View.View Score.BM25_Walk_Proofs Index.Index_Proofs2 Span.Span Span.Span_Safe.
 Open Scope N_scope.
 
@@ -48,6 +48,32 @@ Proof. exact popcount64_reduce_safe. Qed.
 Theorem C14_as_dense : forall idx vals size r, Forall (fun i => i < size) idx -> as_dense idx vals size = PyOk r -> ~ is_fault r.
 Proof. exact as_dense_safe. Qed.
 Print Assumptions C14_as_dense.
+
+(* ---- popcount64 and payload_slice at line level (Kernels/Linear2.v): explicit output buffer of exactly the
+   allocated length (np.empty / np.zeros of arr.shape[0]), checked reads and checked stores.  For EVERY input
+   (any length, unsorted, any mask, lo > hi, empty array; any content of the uninitialised np.empty buffer):
+   no access faults, the loop ends within the model's fuel, and the value is the list model's ---- *)
+Theorem C14_popcount64 : forall junk a, ~ is_fault (popcount64_ll junk a) /\ is_done (popcount64_ll junk a).
+Proof. exact popcount64_ll_safe. Qed.
+Print Assumptions C14_popcount64.
+Theorem C14_popcount64_is_map : forall junk a, popcount64_ll junk a = Done (popcount64 a).
+Proof. exact popcount64_ll_eq. Qed.
+Print Assumptions C14_popcount64_is_map.
+Theorem C14_payload_slice : forall a msb_mask lo hi,
+  ~ is_fault (payload_slice_ll a msb_mask lo hi) /\ is_done (payload_slice_ll a msb_mask lo hi).
+Proof. exact payload_slice_ll_safe. Qed.
+Print Assumptions C14_payload_slice.
+Theorem C14_payload_slice_is_filter : forall a msb_mask lo hi,
+  payload_slice_ll a msb_mask lo hi = Done (payload_slice a msb_mask lo hi).
+Proof. exact payload_slice_ll_eq. Qed.
+Print Assumptions C14_payload_slice_is_filter.
+(* popcount64_arr_naive (popcount.pyx 72-78) has NO caller (dead code); its counter is a C int, so its model is safe
+   below 2^31 words and faults from there on (two's-complement wrap of the counter) *)
+Theorem C14_popcount64_naive_dead_code : forall junk a,
+  (N.of_nat (length a) < 2147483648 -> popcount64_naive_ll junk a = Done (popcount64 a)) /\
+  (2147483648 <= N.of_nat (length a) -> N.of_nat (length a) < 4611686018427387904 -> is_fault (popcount64_naive_ll junk a)).
+Proof. exact (fun junk a => conj (popcount64_naive_ll_eq junk a) (popcount64_naive_ll_faults junk a)). Qed.
+Print Assumptions C14_popcount64_naive_dead_code.
 
 (* termination within the fuel the models carry (so "no fault" is not vacuous through OutOfFuel) *)
 Theorem C14_intersect_drop_terminates : forall l r mask,
